@@ -49,6 +49,11 @@ CHECKS = {
   text="Fault planting: generated well-formed documents under varied layouts (leading blank lines, CRLF, indentation, multi-line text, continuation lines, tabs) receive exactly one faulty construct of 25 classes (Python syntax errors in expression single/multi-line, control/elif line, a chosen line of a <% %> or <%! %> block, def signature, page args, filter list, attribute expression, <%call expr>; unterminated ${ / <%; unknown tag; closing tag without opening; mismatched closing tag; unterminated / mismatched / stray / illegal-continuation control keywords; duplicate block; named block in def; missing or illegal attribute; unclosed tag; invalid control line). The expected line comes from the emitter's own line counter and, inside Python code, from the line CPython itself reports for the same code; checked on every construction path (string, file, lookup, module directory): exception class, .lineno, .pos, .filename, .source, agreement of the four paths, RichTraceback().lineno/.source and the text error template.",
   note="Trusted: the emitter's line/column counter and CPython's SyntaxError.lineno. Not asserted: column of an expression whose FILTER part is unterminated (pinned by test_unterminated_expression_filter). One open known finding (unclosed tag reported at end of template; pinned by test_unclosed_tag).",
   technique="fault planting with an independent line/column counter over generated documents x 4 construction paths"),
+ "C12": dict(
+  category="exploration", design_ref="DESIGN.md §2 C12",
+  text="Planting with an independent line counter: documents are assembled from units whose line numbers the assembler keeps itself; one raising call to a harness function is planted per case at 15 kinds of position (expression single/multi-line, control-line condition, a chosen line of a <% %> block, def body, nested def, call body, named/anonymous block, filter function, decorator, included template, namespace def, inherited base, inheriting child); in the handler every record of RichTraceback() is judged: template frames must carry the right template filename/URI, that template's source and a line inside it, the innermost template frame and every planted call-site frame must carry the planted lines (in order) with the text of that line, plain Python frames must equal traceback.extract_tb; the text and HTML error templates and format_exceptions output must show '<template>, line N' with the line's text. Compile-time SyntaxWarnings and warnings.warn() in <%! %> are recorded under filter actions always/once/error and must be shown exactly once against the template's filename and line. All on 4 construction paths (put_string, file via lookup, module directory first load and reload).",
+  note="Trusted: the assembler's line counter. Glue frames that correspond to no construct only need the right template and an in-range line. One open known finding (frame that invokes a <%block>; repair blocked by two pinned tests).",
+  technique="fault planting with an independent line counter; recorded traceback/warning events judged against planted positions"),
  "C13": dict(
   category="fault_enumeration", design_ref="DESIGN.md §2 C13",
   text="Fault enumeration over generated documents (C05 grammar plus filtered blocks, <%text filter>, includes, an inherited base, loops with loop.index, cached defs, a raising filter and a raising decorator): EVERY node position is a raise point, one at a time (as a <% raise %> block, a raising call in an expression, a raising argument expression, inside the filter function, before/after the wrapped call in the decorator, inside a cached def's creation function), x EVERY enclosing handler position (% try around the raise point and around each ancestor in turn, include_error_handler, error_handler returning True, the caller of render_context, none). Oracles: the reference interpreter (abandoned buffers dropped, direct writes kept), the settrace render-state monitor on every template frame, identity (`is`) of the propagating exception object, a marker written through the same Context after a failed render_context plus the depths of its stacks, the format_exceptions page, and a second (disarmed) and third (re-armed) render of the same Template with cache state carried along.",
